@@ -3,6 +3,23 @@ import Mathlib.Probability.Moments.MGFAnalytic
 import Mathlib.MeasureTheory.Integral.IntervalIntegral.Basic
 import Mathlib.MeasureTheory.Measure.WithDensity
 import Mathlib.Tactic
+/-! # Convexity of the complex Watson log-normaliser `log ₁F₁(1; D; ·)` (C02, closes the gap recorded in DESIGN.md)
+
+`EmWatson.watson_mstep_improves` assumes `TangentAt lnorm (kinv λ) λ`.  Here that hypothesis is *derived* for the
+true log-normaliser of the complex Watson density on the unit sphere of `ℂ^D`,
+`lnorm κ = C + log ₁F₁(1; D; κ)`, `₁F₁(1; D; κ) = (D−1) ∫₀¹ e^{κ t} (1−t)^{D−2} dt` (`watsonKernel`),
+from the single remaining assumption that the returned concentration solves `watsonRatio D κ = λ` exactly.
+
+Route: `watsonKernel D = mgf id (watsonMeasure D)` with `watsonMeasure D` the Beta(1, D−1) law on `(0,1]`;
+`cgf` of a bounded variable is analytic with second derivative = variance under the tilted law `≥ 0` (Mathlib
+`iteratedDeriv_two_cgf_eq_integral`), hence convex on all of `ℝ` (no bound on `κ`).
+
+* general: `integrableExpSet_eq_univ_of_bounded`, `cgf_convexOn_univ`, `cgf_tangentAt`, `cgf_convex_of_bounded`;
+* Watson: `watsonKernel_pos`, `watsonKernel_zero`, `watsonLogNorm_convex`, `watsonLogNorm_hasDerivAt`,
+  `watsonRatio_pos`, `watsonRatio_lt_one`, `watsonRatio_zero`, `watsonRatio_monotone`, `watsonRatio_strictMono`;
+* discharge: `watson_tangent_exact`, `watson_mstep_improves_exact`;
+* identification with the series scipy evaluates: `watsonKernel_hasSum` / `watsonKernel_eq_tsum`
+  (`₁F₁(1; D; κ) = Σₙ κⁿ / (D)ₙ`), `watsonKernel_two` (`(e^κ − 1)/κ`). -/
 
 open MeasureTheory ProbabilityTheory Set
 
@@ -199,6 +216,36 @@ theorem watsonRatio_zero (D : ℕ) (hD : 2 ≤ D) : watsonRatio D 0 = 1 / D := b
   field_simp
   ring
 
+/-- the variance of the tilted Beta law is strictly positive, so the hypergeometric ratio is strictly increasing:
+the exact inverse `kinv` is unique -/
+theorem watsonRatio_strictMono (D : ℕ) (hD : 2 ≤ D) : StrictMono (watsonRatio D) := by
+  rw [watsonRatio_eq_deriv_cgf D hD]
+  refine strictMono_of_deriv_pos fun v => ?_
+  have h2 := iteratedDeriv_two_cgf_eq_integral (X := id) (μ := watsonMeasure D) (v := v)
+    (by simp [watsonMeasure_expSet])
+  rw [iteratedDeriv_succ, iteratedDeriv_one] at h2
+  rw [h2, ← watsonKernel_eq_mgf D hD]
+  refine div_pos ?_ (watsonKernel_pos D hD v)
+  simp only [id]
+  rw [integral_watsonMeasure D hD]
+  set c := deriv (cgf id (watsonMeasure D)) v
+  refine intervalIntegral.integral_pos zero_lt_one (Continuous.continuousOn (by fun_prop)) (fun t ht => ?_) ?_
+  · exact mul_nonneg (mul_nonneg (sq_nonneg _) (Real.exp_nonneg _)) (watson_weight_nonneg D hD ht)
+  · by_cases hc : c = 1 / 2
+    · refine ⟨1 / 4, ⟨by norm_num, by norm_num⟩, ?_⟩
+      refine mul_pos (mul_pos ?_ (Real.exp_pos _)) (watson_weight_pos D hD ⟨by norm_num, by norm_num⟩)
+      rw [hc]; norm_num
+    · refine ⟨1 / 2, ⟨by norm_num, by norm_num⟩, ?_⟩
+      refine mul_pos (mul_pos ?_ (Real.exp_pos _)) (watson_weight_pos D hD ⟨by norm_num, by norm_num⟩)
+      exact lt_of_le_of_ne (sq_nonneg _) (Ne.symm (pow_ne_zero 2 (sub_ne_zero.mpr (Ne.symm hc))))
+
+/-- non-vacuity / sanity: in dimension 2 the kernel is `(e^κ − 1)/κ = ₁F₁(1; 2; κ)` -/
+theorem watsonKernel_two (κ : ℝ) (hκ : κ ≠ 0) : watsonKernel 2 κ = (Real.exp κ - 1) / κ := by
+  simp only [watsonKernel, Nat.cast_ofNat, Nat.sub_self, pow_zero, mul_one]
+  norm_num
+  rw [intervalIntegral.integral_comp_mul_left (fun x => Real.exp x) hκ]
+  simp [div_eq_inv_mul]
+
 /-- **Discharge of the `TangentAt` hypothesis of `watson_mstep_improves`**: if the concentration returned by the
 M-step solves `watsonRatio D κ = λ` exactly, the tangent inequality holds for the true Watson log-normaliser. -/
 theorem watson_tangent_exact (D : ℕ) (hD : 2 ≤ D) (C : ℝ) (kinv : ℝ → ℝ) (lam : ℝ)
@@ -209,22 +256,137 @@ theorem watson_tangent_exact (D : ℕ) (hD : 2 ≤ D) (C : ℝ) (kinv : ℝ → 
 
 end watsonInstance
 
+section series
+open Finset
+
+/-- Beta integral at natural arguments: `∫₀¹ tⁿ (1−t)ᵐ dt = n! m! / (n+m+1)!` -/
+theorem integral_pow_mul_one_sub_pow (n m : ℕ) :
+    ∫ t in (0:ℝ)..1, t ^ n * (1 - t) ^ m = (n.factorial * m.factorial : ℝ) / (n + m + 1).factorial := by
+  induction m generalizing n with
+  | zero =>
+    simp only [pow_zero, mul_one, integral_pow, one_pow, zero_pow (Nat.succ_ne_zero n), sub_zero,
+      Nat.factorial_zero, Nat.cast_one, add_zero, Nat.factorial_succ, Nat.cast_mul]
+    have : (n.factorial : ℝ) ≠ 0 := by positivity
+    push_cast
+    field_simp
+  | succ m ih =>
+    have hd : ∀ x ∈ uIcc (0:ℝ) 1, HasDerivAt (fun t : ℝ => t ^ (n + 1) * (1 - t) ^ (m + 1))
+        (((n : ℝ) + 1) * (x ^ n * (1 - x) ^ (m + 1)) - ((m : ℝ) + 1) * (x ^ (n + 1) * (1 - x) ^ m)) x := by
+      intro x _
+      have := (hasDerivAt_pow (n + 1) x).fun_mul (((hasDerivAt_id' x).const_sub 1).fun_pow (m + 1))
+      refine this.congr_deriv ?_
+      simp only [Nat.add_sub_cancel]; push_cast; ring
+    have hi := intervalIntegral.integral_eq_sub_of_hasDerivAt hd (Continuous.intervalIntegrable (by fun_prop) _ _)
+    rw [intervalIntegral.integral_sub (Continuous.intervalIntegrable (by fun_prop) _ _)
+      (Continuous.intervalIntegrable (by fun_prop) _ _), intervalIntegral.integral_const_mul,
+      intervalIntegral.integral_const_mul, ih (n + 1)] at hi
+    simp only [one_pow, sub_self, zero_pow (Nat.succ_ne_zero _), mul_zero, zero_mul] at hi
+    have h1 : ((n : ℝ) + 1) ≠ 0 := by positivity
+    have h2 : (((n + 1 + m + 1).factorial : ℕ) : ℝ) ≠ 0 := by positivity
+    have e : n + (m + 1) + 1 = n + 1 + m + 1 := by ring
+    rw [e]
+    have hi' : ((n : ℝ) + 1) * ∫ t in (0:ℝ)..1, t ^ n * (1 - t) ^ (m + 1)
+        = ((m : ℝ) + 1) * (((n + 1).factorial * m.factorial : ℝ) / (n + 1 + m + 1).factorial) := by
+      linarith
+    rw [Nat.factorial_succ n, Nat.factorial_succ m] at *
+    push_cast at hi' ⊢
+    field_simp at hi' ⊢
+    linarith
+
+theorem factorial_mul_prod_range (k n : ℕ) :
+    ((k + 1).factorial : ℝ) * ∏ j ∈ range n, (((k + 2 : ℕ) : ℝ) + j) = (n + k + 1).factorial := by
+  induction n with
+  | zero => simp
+  | succ n ih =>
+    rw [prod_range_succ, ← mul_assoc, ih]
+    have : n + 1 + k + 1 = (n + k + 1) + 1 := by ring
+    rw [this, Nat.factorial_succ (n + k + 1)]
+    push_cast; ring
+
+/-- moments of the Beta(1, D−1) weight -/
+theorem watson_moment (D : ℕ) (hD : 2 ≤ D) (n : ℕ) :
+    ∫ t in (0:ℝ)..1, t ^ n * ((D - 1 : ℝ) * (1 - t) ^ (D - 2))
+      = (n.factorial : ℝ) / ∏ j ∈ range n, ((D : ℝ) + j) := by
+  obtain ⟨k, rfl⟩ : ∃ k, D = k + 2 := ⟨D - 2, by omega⟩
+  simp only [Nat.add_sub_cancel]
+  have : ∀ t : ℝ, t ^ n * ((((k + 2 : ℕ) : ℝ) - 1) * (1 - t) ^ k) = ((k : ℝ) + 1) * (t ^ n * (1 - t) ^ k) := by
+    intro t; push_cast; ring
+  simp only [this]
+  rw [intervalIntegral.integral_const_mul, integral_pow_mul_one_sub_pow, ← factorial_mul_prod_range k n,
+    Nat.factorial_succ k]
+  have h1 : (k.factorial : ℝ) ≠ 0 := by positivity
+  have h2 : (∏ j ∈ range n, (((k + 2 : ℕ) : ℝ) + j)) ≠ 0 := by
+    refine prod_ne_zero_iff.mpr fun j _ => ?_
+    positivity
+  push_cast at h2 ⊢
+  field_simp
+
+/-- **the kernel is the confluent hypergeometric series** `₁F₁(1; D; κ) = Σₙ κⁿ / (D)ₙ`
+(`(D)ₙ = D (D+1) ⋯ (D+n−1)` the rising factorial; `(1)ₙ / n! = 1`) -/
+theorem watsonKernel_hasSum (D : ℕ) (hD : 2 ≤ D) (κ : ℝ) :
+    HasSum (fun n : ℕ => κ ^ n / ∏ j ∈ range n, ((D : ℝ) + j)) (watsonKernel D κ) := by
+  have hD' : (2:ℝ) ≤ D := by exact_mod_cast hD
+  have key := intervalIntegral.hasSum_integral_of_dominated_convergence (μ := volume) (a := (0:ℝ)) (b := 1)
+    (F := fun (n : ℕ) (t : ℝ) => (κ * t) ^ n / n.factorial * ((D - 1 : ℝ) * (1 - t) ^ (D - 2)))
+    (f := fun t => Real.exp (κ * t) * ((D - 1 : ℝ) * (1 - t) ^ (D - 2)))
+    (fun n _ => |κ| ^ n / n.factorial * (D - 1 : ℝ))
+    (fun n => (Continuous.aestronglyMeasurable (by fun_prop))) ?_ ?_ ?_ ?_
+  · unfold watsonKernel
+    have e : (fun n : ℕ => κ ^ n / ∏ j ∈ range n, ((D : ℝ) + j))
+        = fun n : ℕ => ∫ t in (0:ℝ)..1, (κ * t) ^ n / n.factorial * ((D - 1 : ℝ) * (1 - t) ^ (D - 2)) := by
+      funext n
+      have : ∀ t : ℝ, (κ * t) ^ n / n.factorial * ((D - 1 : ℝ) * (1 - t) ^ (D - 2))
+          = (κ ^ n / n.factorial) * (t ^ n * ((D - 1 : ℝ) * (1 - t) ^ (D - 2))) := by
+        intro t; rw [mul_pow]; ring
+      simp only [this]
+      rw [intervalIntegral.integral_const_mul, watson_moment D hD]
+      have h1 : (n.factorial : ℝ) ≠ 0 := by positivity
+      field_simp
+    rw [e]; exact key
+  · intro n
+    refine Filter.Eventually.of_forall fun t ht => ?_
+    rw [uIoc_of_le zero_le_one] at ht
+    have ht0 : 0 ≤ 1 - t := by linarith [ht.2]
+    have ht1 : 1 - t ≤ 1 := by linarith [ht.1]
+    rw [norm_mul, norm_div, norm_pow, Real.norm_eq_abs, Real.norm_eq_abs, Real.norm_eq_abs, abs_mul, abs_mul,
+      abs_of_nonneg (by linarith : (0:ℝ) ≤ D - 1), abs_of_nonneg (pow_nonneg ht0 _),
+      abs_of_nonneg (by positivity : (0:ℝ) ≤ (n.factorial : ℝ)), abs_of_pos ht.1]
+    have h1 : (|κ| * t) ^ n ≤ |κ| ^ n :=
+      pow_le_pow_left₀ (mul_nonneg (abs_nonneg _) ht.1.le) (by nlinarith [abs_nonneg κ, ht.1, ht.2]) n
+    have h2 : (1 - t) ^ (D - 2) ≤ 1 := pow_le_one₀ ht0 ht1
+    have h3 : (0:ℝ) ≤ D - 1 := by linarith
+    gcongr
+    nlinarith [pow_nonneg ht0 (D - 2)]
+  · exact Filter.Eventually.of_forall fun t _ => (Real.summable_pow_div_factorial |κ|).mul_right _
+  · exact intervalIntegrable_const
+  · refine Filter.Eventually.of_forall fun t _ => ?_
+    have := NormedSpace.expSeries_div_hasSum_exp (κ * t)
+    rw [← Real.exp_eq_exp_ℝ] at this
+    exact this.mul_right _
+
+theorem watsonKernel_eq_tsum (D : ℕ) (hD : 2 ≤ D) (κ : ℝ) :
+    watsonKernel D κ = ∑' n : ℕ, κ ^ n / ∏ j ∈ range n, ((D : ℝ) + j) :=
+  (watsonKernel_hasSum D hD κ).tsum_eq.symm
+
+end series
+
 section mstep
-variable {Dm N : Nat}
+open PbBss PbBss.Em
+variable {D N : Nat}
 
 /-- **Watson M-step with the exact log-normaliser** `lnorm = C + log ₁F₁(1; D; ·)`: the `TangentAt` contract of
 `watson_mstep_improves` is replaced by "the concentration returned for the top eigenvalue `λ` solves
-`watsonRatio D κ = λ` exactly".  (`D : ℕ`, `2 ≤ D`, is the dimension parameter of the normaliser; the theorem holds
-for any such `D`, the intended instance is `D = Dm`.) -/
-theorem watson_mstep_improves_exact (D : ℕ) (hD : 2 ≤ D) (C : ℝ) (pca : Tab Dm (Tab Dm ℂ) → Tab Dm ℂ × ℝ)
-    (kinv : ℝ → ℝ) (c aux : Fin N → ℝ) (z : Fin N → Fin Dm → ℂ) (θ : Watson ℝ ℂ Dm) (hC : 0 < ∑ n, c n)
+`watsonRatio D κ = λ` exactly" (`D` is the model dimension, `2 ≤ D`; `C = log(2 π^D / (D−1)!)` in the code, any
+constant works). -/
+theorem watson_mstep_improves_exact (hD : 2 ≤ D) (C : ℝ) (pca : Tab D (Tab D ℂ) → Tab D ℂ × ℝ)
+    (kinv : ℝ → ℝ) (c aux : Fin N → ℝ) (z : Fin N → Fin D → ℂ) (θ : Watson ℝ ℂ D) (hC : 0 < ∑ n, c n)
     (hunit : ∑ d, Complex.normSq (rd θ.mode d) = 1) (hk : 0 ≤ θ.kappa)
     (hln : θ.logNorm = watsonLogNorm D C θ.kappa)
     (hpca : PcaContract (rd2 (watsonScatter c z)) (pca (watsonScatter c z)))
     (hinv : watsonRatio D (kinv (pca (watsonScatter c z)).2) = (pca (watsonScatter c z)).2) :
-    compQ (watsonFamily Dm pca kinv (watsonLogNorm D C)) c z θ
-      ≤ compQ (watsonFamily Dm pca kinv (watsonLogNorm D C)) c z
-          ((watsonFamily Dm pca kinv (watsonLogNorm D C)).mstep N c aux z) :=
+    compQ (watsonFamily D pca kinv (watsonLogNorm D C)) c z θ
+      ≤ compQ (watsonFamily D pca kinv (watsonLogNorm D C)) c z
+          ((watsonFamily D pca kinv (watsonLogNorm D C)).mstep N c aux z) :=
   watson_mstep_improves pca kinv (watsonLogNorm D C) c aux z θ hC hunit hk hln hpca
     (watson_tangent_exact D hD C kinv _ hinv)
 
@@ -240,6 +402,13 @@ example : TangentAt (watsonLogNorm 2 0) 0 (1/2) :=
   watson_tangent_exact 2 le_rfl 0 (fun _ => 0) (1/2) (by simpa using watsonRatio_zero 2 le_rfl)
 
 example : watsonKernel 2 0 = 1 := watsonKernel_zero 2 le_rfl
+
+example : watsonKernel 2 1 = Real.exp 1 - 1 := by
+  rw [watsonKernel_two 1 one_ne_zero, div_one]
+
+/-- the exact inverse exists for every `λ` in the range of the ratio and is then unique -/
+example (D : ℕ) (hD : 2 ≤ D) (κ₁ κ₂ : ℝ) (h : watsonRatio D κ₁ = watsonRatio D κ₂) : κ₁ = κ₂ :=
+  (watsonRatio_strictMono D hD).injective h
 
 end examples
 
